@@ -193,6 +193,17 @@ static int ea_immediate(
   }
     else
   {
+    if (size == SIZE_B)
+    {
+      if (operand->value < -128 || operand->value > 255)
+      {
+        print_error_range(asm_context, "Immediate", -128, 255);
+        return -1;
+      }
+      add_bin16(asm_context, operand->value & 0xff, IS_OPCODE);
+      return 4;
+    }
+
     if (operand->value < -32768 || operand->value > 65535)
     {
       print_error_range(asm_context, "Immediate", -32768, 65535);
@@ -597,11 +608,21 @@ static int write_immediate(
       return -1;
   }
 
+  if (size == SIZE_B)
+  {
+    if (check_range(asm_context, "Immediate", operands[0].value, -128, 255) != 0) { return -1; }
+  }
+    else
+  if (size == SIZE_W)
+  {
+    if (check_range(asm_context, "Immediate", operands[0].value, -32768, 65535) != 0) { return -1; }
+  }
+
   add_bin16(asm_context, opcode, IS_OPCODE);
 
   if (size < SIZE_L)
   {
-    add_bin16(asm_context, operands[0].value, IS_OPCODE);
+    add_bin16(asm_context, operands[0].value & (size == SIZE_B ? 0xff : 0xffff), IS_OPCODE);
     len += 2;
   }
     else
